@@ -124,7 +124,7 @@ func checkC18(c *Check) {
 		defP := vParam(fn, 2)
 		var v VM
 		if n == "Query" {
-			v = vCall("(net/url.Values).Get", vCall("(*net/url.URL).Query"), name)
+			v = vCall("(net/url.Values).Get", queryValsVM(fn), name)
 		} else {
 			v = func(x ssa.Value) bool {
 				cl := asCall(x)
@@ -230,7 +230,7 @@ func checkC18(c *Check) {
 			// vs, ok := c.Request().URL.Query()[name]: present ⇒ vs; default / empty only when absent
 			var lk *ssa.Lookup
 			allInstrs(fn, func(in ssa.Instruction) {
-				if l, ok := in.(*ssa.Lookup); ok && l.CommaOk && vCall("(*net/url.URL).Query")(l.X) && vParam(fn, 1)(l.Index) {
+				if l, ok := in.(*ssa.Lookup); ok && l.CommaOk && queryValsVM(fn)(l.X) && vParam(fn, 1)(l.Index) {
 					lk = l
 				}
 			})
@@ -445,5 +445,36 @@ func checkC18(c *Check) {
 			}
 			c.Cond(good, p.FuncKey(fn)+":absent", p.Pos(ck.Pos()), "absent cookie ⇒ \"\" (no nil dereference)", "an absent cookie does not yield the empty string")
 		}
+	}
+}
+
+// queryValsVM: the parsed query of the request, or φ(nil, parsed query) where the nil map is chosen only
+// on the RawQuery == "" edge (reading a nil url.Values behaves like reading the empty one; choosing it for
+// a request that has a query string would hide its parameters).
+func queryValsVM(fn *ssa.Function) VM {
+	rawEmpty := edgesWhere(fn, cEmptyStr(vFieldNamed("RawQuery")), true)
+	base := vCall("(*net/url.URL).Query")
+	return func(v ssa.Value) bool {
+		v = strip(v)
+		if base(v) {
+			return true
+		}
+		ph, ok := v.(*ssa.Phi)
+		if !ok {
+			return false
+		}
+		sawQ := false
+		for i, e := range ph.Edges {
+			e = strip(e)
+			if base(e) {
+				sawQ = true
+				continue
+			}
+			if vNil(e) && len(rawEmpty) > 0 && edgeGuarded(fn, rawEmpty, ph.Block().Preds[i], ph.Block()) {
+				continue
+			}
+			return false
+		}
+		return sawQ
 	}
 }
